@@ -62,11 +62,11 @@ ReadClauses(hp, m, e) ==
      LET r == e.reads[i] IN
      IF ~InHeap(hp, r.b, r.a) THEN "read:" \o r.route \o ":unknown-object"
      ELSE LET o == HeapAt(hp, r.b, r.a) IN
-          IF r.exc # "" THEN "read:" \o r.route \o ":raised"
+          IF r.exc # "" THEN "read:" \o r.route \o ":raised:" \o r.exc
           ELSE IF Mask(o.t, r.v) # Mask(o.t, o.v) THEN "read:" \o r.route \o ":value@" \o Where(o.t, Mask(o.t, o.v), Mask(o.t, r.v))
           ELSE IF r.v # o.v THEN "read:" \o r.route \o ":ref"
           ELSE IF r.size >= 0 /\ r.size # SizeAt(o.t, m[o.b], o.a) THEN "read:" \o r.route \o ":size"
-          ELSE IF o.t.k = "arr" /\ r.strides # <<>> /\ r.strides # Strides(o.t, o.v.sh, ItemW(o.t)) THEN "read:" \o r.route \o ":strides"
+          ELSE IF o.t.k = "arr" /\ r.strides # <<>> /\ NItems(o.v.sh) > 0 /\ r.strides # Strides(o.t, o.v.sh, ItemW(o.t)) THEN "read:" \o r.route \o ":strides"
           ELSE ""])
 
 (* ------------------------------ construct (and copy) ------------------------------ *)
@@ -140,7 +140,9 @@ StepResult(e, m1, rg1) ==
              esz == SizeAt(el, m0, ea)
              elext == {<<e.b, x>> : x \in ea..(ea + esz - 1)}
              ch == Chg(mem, e)
-             val == Norm(heap, el, e.val)
+             val == IF "from" \in DOMAIN e       \* the assigned value is an existing object of the element's type (any buffer)
+                    THEN LET src == HeapAt(heap, e.from[1], e.from[2]) IN AsCopyInput(heap, src.t, src.v, src.b, src.b = e.b)
+                    ELSE Norm(heap, el, e.val)
              news == News(el, val, mb, ea)
              nv == Resolve(el, val, mb, ea)
              o1 == [o EXCEPT !.v = SetAt(o.t, o.v, lp, nv)]
@@ -158,7 +160,7 @@ StepResult(e, m1, rg1) ==
                    IN NonEmpty(<<
                         IF Mask(el, got) # Mask(el, nv) THEN "set:element-value@" \o Where(el, Mask(el, nv), Mask(el, got)) ELSE IF got # nv THEN "ref:word" ELSE "",
                         IF got = nv /\ deco # o1.v THEN "set:other-element-changed" ELSE "",
-                        IF Skel(el, mb, ea) # Skel(el, m0, ea) THEN "set:size-or-shape-changed" ELSE "",
+                        IF Skel(el, mb, ea) # Skel(el, m0, ea) THEN (IF SkelNoStr(el, mb, ea) = SkelNoStr(el, m0, ea) THEN "set:string-box-size-changed" ELSE "set:size-or-shape-changed") ELSE "",
                         IF others # {} THEN "set:other-object-changed" ELSE "",
                         IF ~RefsResolve(hp) THEN "ref:dangling" ELSE "">>) \o nt \o ReadClauses(hp, m1, e),
              hp |-> hp]
